@@ -48,6 +48,9 @@ def main():
         if os.path.isdir(os.path.join(WT, cand)) and any(f.endswith(".go") for f in os.listdir(os.path.join(WT, cand))):
             pkgdir = cand
             break
+    head = demo_src[:1500].lower()
+    if re.search(r"(repo(sitory)? root|root package|package ct\b|to the root)", head) or re.search(r"^package ct(_test)?\s*$", demo_src, flags=re.M):
+        pkgdir = "."
     if pkgdir is None:
         pkgdir = touched[0] if touched else "."
     pkgname = re.search(r"^package\s+(\w+)", demo_src, flags=re.M)
@@ -58,7 +61,7 @@ def main():
 
     def run_demo():
         shutil.copy(demo, demo_dst)
-        rc, out = sh(["go", "test", "-count=1", "-vet=off", "-run", runpat, "./" + pkgdir + "/"], cwd=WT)
+        rc, out = sh(["go", "test", "-count=1", "-vet=off", "-run", runpat, "." if pkgdir == "." else "./" + pkgdir + "/"], cwd=WT)
         os.remove(demo_dst)
         return rc, out[-1500:]
 
